@@ -315,6 +315,16 @@ add("selector_step", "h_header.c", "h_selector_step", {"C05": "quick", "C06": "q
     witnesses=["selector_names_missing_table", "selector_stored", "longest_selector_code"],
     bounds="one selector from any position of a list of 1..40 selectors (scaled), 2..6 tables, any 32 input bits", assumptions=HDR_ASM)
 
+# ------------------------------------------------------------------------------- inverse BWT
+for _nb, _tier, _to in ((4, "quick", 600), (5, "thorough", 3000)):
+    add("ibwt_n%d" % _nb, "h_ibwt.c", "h_ibwt", {"C01": _tier, "C06": _tier, "C05": _tier}, defines=["-DNB=%d" % _nb, "-DVMAX=3"], extra_src=["crctab.c"],
+        cbmc=["--unwind", str(_nb + 2), "--unwindset", "decode.0:257"], backend="kissat", timeout=_to, mem_gb=8,
+        functions=["src/decode.c:decode (counting sort, list construction, in-situ IBWT of the randomised path)"],
+        witnesses=["randomised_path", "normal_path", "full_length"],
+        bounds="every block of 1..%d bytes over the byte values 0..3: forward block-sorting transform computed by definition in the harness, the real decode() must invert it; normal and randomised path" % _nb,
+        assumptions=["reference = definition of the bzip2 block-sorting transform (last column of the sorted cyclic rotations, primary index = row of the block itself)"],
+        outside=["blocks above %d bytes; the derandomisation table itself (rand_table stepping starts at byte 617)" % _nb])
+
 # ===== keep this section LAST: it derives obligations from everything registered above =====
 # ------------------------------------------------------------------------------- C08: the same harnesses with CBMC's UB checks on
 import copy as _copy
